@@ -155,7 +155,9 @@ func familyOf(network string, ip net.IP) (v4 bool, err error) {
 
 		return true, nil
 	case "udp6", "tcp6":
-		if !isWild(ip) && is4(ip) {
+		// (the literal 0.0.0.0 is refused too: "listen udp6: address 0.0.0.0: no suitable address
+		// found", while "::" on an IPv4 network is taken for the IPv4 wildcard - as Go's net does)
+		if len(ip) > 0 && is4(ip) {
 			return false, &net.AddrError{Err: "non-IPv6 address", Addr: ip.String()}
 		}
 
